@@ -10,7 +10,7 @@ import twin
 ID = "C01"
 MODULE = "HttpcoreModel.Props.C01"
 THEOREMS = [f"Httpcore.C01.{n}" for n in ("h1_exchange_open", "h1_no_desync", "delivers_content_length", "delivers_chunked", "no_desync", "h1_reuse_rule", "exclusive_use", "in_use_not_idle",
-                                           "unfinished_exchange_closes", "h2_own_stream_only")]
+                                           "unfinished_exchange_closes", "h2_own_stream_only", "h1_gate_atomic", "h2_broken_connection_not_offered")]
 TRUSTED = [
     "Lean 4.33 kernel; axioms per theorem under coverage.theorems",
     "the byte-level reader model (H1Read/H1Obs, tied by C02's differential), the pool/connection transition system Sys (tied by C05/C06's sweeps) "
@@ -91,6 +91,8 @@ def run(ctx, driver):
                     if not ok:
                         rec.fail("C01:wrong-response", {"proto": sc["kind"]}, {"scenario": repr(sc), "step": st["tok"], "got": repr(data)[:120],
                                                                                 "want": repr(full)[:120]})
+    run_h2_histories(ctx, rec)
+    run_threads(ctx, rec)
     return rec.finish("C01 token-echo exploration",
                       "HTTP/1.1: 2-5 concurrent callers over 1-3 origins and 1-2 connections on the real async pool (asyncio, trio), gated network; "
                       "callers read in full, read one part and close, or close without reading; cancels (scope and native), faults, server-side "
@@ -100,6 +102,85 @@ def run(ctx, driver):
                       "HTTP/2: 2-6 multiplexed requests with interleaved frames, RST, cancels, abandoned responses. Histories: 1-4 sequential "
                       "requests over all 8 connection kinds (direct, TLS, HTTP/2, forward / tunnel proxies, SOCKS5) with early closes and injected "
                       "faults. distinct = distinct schedules / histories")
+
+
+ILLEGAL_H2 = [(b"TE", b"gzip"), (b":foo", b"1"), (b"te", b"deflate"), (b":status", b"200")]
+
+
+def run_h2_histories(ctx, rec):
+    """Sequential histories on one pooled HTTP/2 connection in which some request heads are refused by h2 part-way through their
+    HPACK encoding (C03's illegal heads), or fail while being written: the exchanges that follow must still be answered with their
+    own echo (paths repeat, so that a compression context that has lost step with the server would decode to an earlier request)."""
+    import httpcore
+    import scen
+    import simnet
+    rng = ctx.rng
+    for i in range(150 if ctx.quick else 4000):
+        steps = []
+        for j in range(rng.randint(3, 8)):
+            tok = "p%d" % rng.randrange(3)
+            hs = [(b"x-token", rng.choice([b"alice", b"bob", b"carol"])), (b"x-n", b"%d" % rng.randrange(3))][:rng.randint(0, 2)]
+            bad = rng.random() < 0.3
+            if bad:
+                hs.insert(rng.randint(0, len(hs)), rng.choice(ILLEGAL_H2)) if rng.random() < 0.7 else hs.append(rng.choice(ILLEGAL_H2))
+            steps.append((tok, hs, b"id%d" % j, bad))
+        peers = []
+
+        def factory(recd):
+            p = simnet.H2Peer(handler=scen.h2_handler_factory([]))
+            p.reqs = {}
+            peers.append(p)
+            return p
+        net = simnet.Net(simnet.Behavior(peer_factory=factory))
+        got = []
+        with httpcore.ConnectionPool(network_backend=simnet.SimBackend(net), http2=True, ssl_context=simnet.RecordingSSLContext(),
+                                     max_connections=rng.choice([1, 2])) as pool:
+            for tok, hs, body, bad in steps:
+                try:
+                    r = pool.request("POST", f"https://o0.example/{tok}", headers=hs, content=body)
+                    got.append(("ok", r.status, r.content))
+                except BaseException as e:  # noqa
+                    got.append(("error", simnet.exc_name(e), None))
+        rec.evals += 1
+        rec.distinct.add(("h2-history", repr(steps)))
+        rec.dist["h2-history:runs"] += 1
+        rec.dist["h2-history:connections:%d" % len(peers)] += 1
+        for (tok, hs, body, bad), g in zip(steps, got):
+            rec.dist["h2-history:" + ("illegal-head:" if bad else "legal:") + g[0] + (":" + str(g[1]) if g[0] == "error" else "")] += 1
+            want = b"echo:/" + tok.encode() + b":" + body
+            if g[0] == "ok" and g[2] != want:
+                rec.fail("C01:wrong-response", {"proto": "h2", "history": "after-refused-head"},
+                         {"steps": repr(steps), "request": tok, "got": repr(g[2])[:120], "want": repr(want)[:120], "outcomes": repr(got)[:600],
+                          "how_to_replay": "the listed POST requests, in order, through one ConnectionPool(http2=True) against an h2 echo server"})
+            elif g[0] == "error" and not bad:
+                rec.fail("C01:exchange-failed-after-refused-head", {"proto": "h2", "error": g[1]},
+                         {"steps": repr(steps), "request": tok, "outcomes": repr(got)[:600]})
+
+
+def run_threads(ctx, rec):
+    """HTTP/1.1 under real threads (controlled scheduler of C08): a connection must not be entered by a second request while an
+    exchange is in progress on it - h11 then refuses the second request or the two exchanges tear each other's responses apart."""
+    import c08run
+    rng = ctx.rng
+    n = (150 if ctx.quick else 4000) * (8 if ctx.broken else 1)      # a proof obligation / the tie no longer checks: search harder
+    for i in range(n):
+        cfg = c08run.gen_cfg(rng)
+        cfg.update(http2=False, p_faulty=0.0, max_connections=rng.choice([1, 1, 2]), origins=rng.choice([1, 1, 2]), threads=rng.choice([2, 3, 3]),
+                   switch_prob=rng.choice([0.2, 0.5]))
+        seed = rng.randrange(1 << 30)
+        r = c08run.run_one(cfg, seed)
+        rec.evals += 1
+        rec.distinct.add(("threads", repr(sorted(cfg.items())), seed))
+        rec.dist["threads:schedules"] += 1
+        for clause, d in r["violations"]:
+            rec.dist["threads:" + clause] += 1
+            exc = str(d.get("exc", ""))
+            if clause == "C08:wrong-response" or (clause == "C08:request-failed" and ("LocalProtocolError" in str(d.get("outcome", ""))
+                                                                                      or "RemoteProtocolError" in str(d.get("outcome", "")))):
+                rec.fail("C01:exchanges-overlap-on-one-connection", {"proto": "h1", "threads": True,
+                                                                       "symptom": "wrong-response" if clause == "C08:wrong-response" else "protocol-error"},
+                         {"cfg": cfg, "seed": seed, "detail": {k: (v if isinstance(v, (int, str, list, dict)) else repr(v)) for k, v in d.items()},
+                          "exception": exc[:200], "how_to_replay": "c08run.run_one(cfg, seed)"})
 
 
 replay = propbase.default_replay
